@@ -49,7 +49,13 @@ impl SuperficialLossInfo {
     ) -> GreaterEqualZeroDecimal {
         let zero = GreaterEqualZeroDecimal::zero();
         let mut total = GreaterEqualZeroDecimal::zero();
-        for af in &self.buying_affiliates {
+        // Add up in a fixed order. With 28-digit fractions (eg. after a 7-for-3
+        // split) the last digit of a sum depends on the order of its terms, and
+        // the iteration order of a HashSet changes from run to run.
+        let mut buying_affiliates: Vec<&Affiliate> =
+            self.buying_affiliates.iter().collect();
+        buying_affiliates.sort_by(|a, b| a.id().cmp(b.id()));
+        for af in buying_affiliates {
             total +=
                 *self.active_affiliate_spladj_shares_at_eop.get(af).unwrap_or(&zero);
         }
